@@ -267,7 +267,7 @@ func genC09(g *Gen) {
 	item := func(s []byte, f, t int) []interface{} { return []interface{}{bytesJ(s), f, t} }
 	// Cmp / Len: groups of related bit strings; all pairs of the group
 	for c := 0; c < g.N(700, 25000); c++ {
-		n := []int{0, 1, 2, 3, 6, 7, 8, 9, 10, 15, 16, 17, 20}[r.Intn(13)]
+		n := []int{0, 1, 2, 3, 6, 7, 8, 9, 10, 15, 16, 17, 20, 31, 32, 33, 48}[r.Intn(17)]
 		base := bsString(r, n)
 		var items [][]interface{}
 		add := func(s []byte, f, t int) {
@@ -337,7 +337,7 @@ func genC09(g *Gen) {
 	}
 	// CmpUpto / StrCmpUpto: plain strings shorter, equal, one byte longer, much longer; garbage in the masked-out bits
 	for c := 0; c < g.N(1500, 60000); c++ {
-		n := []int{0, 1, 2, 3, 5, 6, 7, 8, 9, 10, 11, 15, 16, 17, 24}[r.Intn(15)]
+		n := []int{0, 1, 2, 3, 5, 6, 7, 8, 9, 10, 11, 15, 16, 17, 24, 31, 32, 33, 47}[r.Intn(19)]
 		s := bsString(r, n)
 		t := r.Intn(8*n + 1)
 		if r.Intn(4) == 0 {
@@ -433,7 +433,7 @@ var keyTail = []byte{0x00, 0x01, 'a', 'b', 0x80, 0xff}
 
 // keySet draws a sorted set of distinct keys sharing a prefix; unsorted=false keeps them strictly ascending.
 func keySet(r *rand.Rand, nk int) []string {
-	plen := []int{0, 0, 1, 3, 7, 8, 9, 15, 16, 17, 20}[r.Intn(11)]
+	plen := []int{0, 0, 1, 3, 7, 8, 9, 15, 16, 17, 20, 23, 24, 25, 31, 32, 33, 40}[r.Intn(18)]
 	prefix := make([]byte, plen)
 	for i := range prefix {
 		prefix[i] = keyTail[r.Intn(len(keyTail))]
